@@ -92,6 +92,18 @@ type pType struct {
 	Consts          [][2]string `json:"consts,omitempty"`          // enum: [name, literal]
 	Raw             string      `json:"raw,omitempty"`             // further declarations printed verbatim after this one
 	ConstsElsewhere int         `json:"constsElsewhere,omitempty"` // enum: this many trailing constants are declared in a sibling file of the package
+	ConstDocs       []string    `json:"constDocs,omitempty"`       // enum: a doc comment line per constant ("" = none), parallel to Consts
+}
+
+// pSite: ONE annotation line placed in the doc comment of one construct (C16: malformed JSON5 is reported wherever
+// gleece reads comments, never silently dropped)
+type pSite struct {
+	Kind      string `json:"kind"` // field | type | const | controller | method
+	Type      string `json:"type,omitempty"`
+	Pkg       string `json:"pkg,omitempty"`
+	Member    string `json:"member,omitempty"`
+	Malformed bool   `json:"malformed"`
+	Line      string `json:"line"`
 }
 
 type pConfig struct {
@@ -119,6 +131,7 @@ type pProject struct {
 	Determinism int           `json:"determinism,omitempty"` // C13: number of brand-new sessions whose bytes are compared
 	Echo        bool          `json:"echo,omitempty"`        // rig: controller methods record their arguments (package rigrec)
 	GroupParams bool          `json:"groupParams,omitempty"` // print consecutive same-typed parameters as one group: (a, b string, n int)
+	Site        *pSite        `json:"site,omitempty"`
 }
 
 // ---- rendering
@@ -236,7 +249,10 @@ func writeProject(p pProject, dir string) (map[string]string, error) {
 				ef.decls = append(ef.decls, eb.String())
 			}
 			sb.WriteString("type " + t.Name + " " + t.Base + "\n\nconst (\n")
-			for _, c := range here {
+			for ci, c := range here {
+				if ci < len(t.ConstDocs) && t.ConstDocs[ci] != "" {
+					sb.WriteString("\t// " + t.ConstDocs[ci] + "\n")
+				}
 				sb.WriteString("\t" + c[0] + " " + t.Name + " = " + c[1] + "\n")
 			}
 			sb.WriteString(")\n")
@@ -394,6 +410,10 @@ func configText(c pConfig) string {
 	globs := c.Globs
 	if len(globs) == 0 {
 		globs = []string{"./ctl/*.go", "./other/*.go"}
+		if (len(c.Engine)+len(c.Schemes))%2 == 1 {
+			// the same selection, spelled with doublestar's alternation and a `**` that stands for no directory
+			globs = []string{"./{ctl,other}/**/*.go"}
+		}
 	}
 	schemes := []map[string]any{}
 	for _, s := range c.Schemes {
